@@ -15,7 +15,11 @@ RULE = ("each case = one real System on a current-thread tokio runtime with a pa
         "the ops-level specification states its keys for every block of the case (measured on the quick run: independent keys in 74 % of the observation blocks, the quiescence keys in 57 %; "
         "before this generator mode 57 % / 44 %). The committed corpus (corpus/C20E/review_b.ops) holds the reviewer's hand cases: zero / negative quantities, 100 % and 200 % fees, duplicate and "
         "re-used client order ids, zero balances, a flip on three instruments, and the inputs outside the guard PosOps on which the real engine task PANICS (a position entered at price 0 exits; a "
-        "zero-quantity position is touched again): harness and model print `panic` there and the case ends. Thorough additionally enumerates every op sequence of length <= 3 "
+        "zero-quantity position is touched again): harness and model print `panic` there and the case ends. An INPUT-DOMAIN family (cases d<n>, one per 8 random cases, own PRNG stream; corpus/C20E/dom_rebate_exactfit.ops holds hand cases) draws what the random cases never do: NEGATIVE fees "
+        "(maker rebates -1 % / -10 % / -50 %: fees_percent is a signed Decimal; the ops-level spec is silent there, the correspondence is not), fees of 0.5 % and 100 %, quote balances 0 / 99 / 100 / 101 / 250.5 / 2e12 and base balances "
+        "0 / 0.5 / 1 / 2 / 20 (exact fits: 1 @ 100 costs 99 at -1 %, 100 without fees, 101 at 1 %), prices 0.5 / 99.99 / 1e-4 / 1e12 and quantities 3 / 0.125 / 1e-8 (every product within 28 digits), latencies 1 / 500 ms "
+        "(below the 1 s request timeout of the execution manager, which the composed model does not have), up to three open and two cancel requests per call, a third of the cancel requests with an exchange order id. "
+        "Thorough additionally enumerates every op sequence of length <= 3 "
         "over 8 symbols (strategy order, trading on, accepted buy, accepted sell, rejected buy, close positions, settle, sleep 50) for (latency 0, no fees) and (latency 50, 1 % "
         "fees) (1 170 cases). A case is distinct by the SHA-1 of its op lines and non-trivial when the implementation's observation blocks differ")
 ASSUMPTIONS = [
